@@ -160,6 +160,7 @@ type Result struct {
 	Late           bool
 	Probes         []Probe
 	SetupErr       string
+	Cuts           int32 // "cut" operations performed
 	Clients        []*scen.Client
 	Cluster        *scen.Cluster
 	// Residue is filled by runs that ask for it (C18)
@@ -330,6 +331,10 @@ func Run(c Case, h Hooks) Result {
 				case op.Kind == "register":
 					// a handler registered while the server is running (nothing is arriving meanwhile)
 					cl.RegisterLate(op.Call.Node % c.N)
+				case op.Kind == "cut":
+					// the connections to a server break underneath it (it keeps listening)
+					cl.Cut(op.Call.Node % c.N)
+					atomic.AddInt32(&res.Cuts, 1)
 				case op.Kind == "stop":
 					cl.Stop(op.Call.Node % c.N)
 				case op.Kind == "start":
@@ -374,9 +379,15 @@ func Run(c Case, h Hooks) Result {
 					floodMu.Unlock()
 					req := &puppet.Req{Note: "flood", Payload: make([]byte, op.Call.Payload)}
 					n := op.Us
+					mcast := op.Call.Kind == "Multicast" // the flood goes to every node; the one that does not read holds it up
+					cfg0 := client.Configs[0]
 					go func() {
 						for k := 0; k < n && fctx.Err() == nil; k++ {
-							node.Unicast(fctx, req, gorums.WithNoSendWaiting())
+							if mcast {
+								cfg0.Multicast(fctx, req, gorums.WithNoSendWaiting())
+							} else {
+								node.Unicast(fctx, req, gorums.WithNoSendWaiting())
+							}
 						}
 					}()
 					time.Sleep(2 * time.Millisecond)
@@ -524,6 +535,9 @@ func Run(c Case, h Hooks) Result {
 				// a stream write was failed on purpose: some requests are never handled
 				wait = 200 * time.Millisecond
 			}
+		}
+		if atomic.LoadInt32(&res.Cuts) > 0 {
+			wait = 200 * time.Millisecond
 		}
 		cl.Log.WaitFor(wait, func(evs []scen.Event) bool {
 			return scen.Count(evs, func(e scen.Event) bool { return e.Kind == "enter" && e.Token >= first && e.Token < last }) >= want
